@@ -949,6 +949,10 @@ func prepareDeltaBuild(options Options, repository *git.Repository) (repos map[f
 	// branch name -> git worktree at most current commit
 	branchToCurrentTree := make(map[string]*object.Tree, len(branches))
 
+	// branch name -> ignore rules of that branch (normal builds apply them in
+	// RepoWalker.CollectFiles; a delta build must leave out the same paths)
+	branchToIgnore := make(map[string]*ignore.Matcher, len(branches))
+
 	for _, b := range branches {
 		commit, err := getCommit(repository, options.BranchPrefix, b)
 		if err != nil {
@@ -961,6 +965,16 @@ func prepareDeltaBuild(options Options, repository *git.Repository) (repos map[f
 		}
 
 		branchToCurrentTree[b] = tree
+
+		ig, err := newIgnoreMatcher(tree)
+		if err != nil {
+			return nil, nil, nil, fmt.Errorf("reading ignore file for branch %q: %w", b, err)
+		}
+		branchToIgnore[b] = ig
+	}
+	ignored := func(branch, path string) bool {
+		ig := branchToIgnore[branch]
+		return ig != nil && ig.Match(path)
 	}
 
 	rawURL := options.BuildOptions.RepositoryDescription.URL
@@ -1007,7 +1021,9 @@ func prepareDeltaBuild(options Options, repository *git.Repository) (repos map[f
 
 				// either file is added or renamed, so we need to add the new version to the build
 				file := fileKey{Path: newFileRelativeRootPath, ID: newFile.Hash}
-				if existing, ok := repos[file]; ok {
+				if ignored(branch.Name, newFileRelativeRootPath) {
+					// a normal build would not index this path on this branch
+				} else if existing, ok := repos[file]; ok {
 					existing.Branches = append(existing.Branches, branch.Name)
 					repos[file] = existing
 				} else {
@@ -1035,6 +1051,10 @@ func prepareDeltaBuild(options Options, repository *git.Repository) (repos map[f
 			// The file is either modified or deleted. So, we need to add ALL versions
 			// of the old file (across all branches) to the build.
 			for b, currentTree := range branchToCurrentTree {
+				if ignored(b, oldFileRelativeRootPath) {
+					continue
+				}
+
 				f, err := currentTree.File(oldFileRelativeRootPath)
 				if err != nil {
 					// the file doesn't exist in this branch
